@@ -46,10 +46,24 @@ def seeded():
         rows.append(j)
     if not rows:
         return "_no seeded regression confirmed yet_"
-    out = ["| id | property | change | needs | caught by (tier) | key(s) reported |", "|---|---|---|---|---|---|"]
+    def cell(t):
+        return str(t).replace("|", "/").replace("\n", " ")
+    out = ["| id | change (needs) | caught by | key(s) reported | first run / what was strengthened |", "|---|---|---|---|---|"]
     for j in rows:
-        out.append(f"| {j.get('id')} | {j.get('property')} | {j.get('summary', '')[:200]} | {j.get('needs', '')[:200]} | {j.get('caught_by', 'not yet run')} | {', '.join(j.get('keys', []))[:200]} |")
-    return "\n".join(out)
+        d = os.path.join(VERIF, "seeded", j.get("id", ""))
+        conf = {}
+        if os.path.exists(os.path.join(d, "confirm.json")):
+            conf = json.load(open(os.path.join(d, "confirm.json")))
+        first = (j.get("runs") or [{}])[0]
+        first_txt = "caught on the first run" if first.get("exit") == 1 else j.get("strengthening", "missed on the first run")
+        if j.get("note"):
+            first_txt += " " + j["note"]
+        keys = ", ".join(f"`{k}`" for k in j.get("keys", [])[:3])
+        out.append(f"| {j.get('id')} | {cell(j.get('summary', ''))[:260]} *(needs: {cell(j.get('needs', ''))[:200]})* | {cell(j.get('caught_by', 'not run'))} | {keys} | {cell(first_txt)[:500]} |")
+    n_caught = sum(1 for j in rows if str(j.get("caught_by", "")).startswith("C"))
+    head = (f"{len(rows)} regressions confirmed (demonstration passes on the unchanged tree and fails with the change; the repository's test suite passes with the change - "
+            f"`seeded/<id>/confirm.json`), {n_caught} reported by the quick tier of a registered check.\n\n")
+    return head + "\n".join(out)
 
 
 def main():
